@@ -339,19 +339,24 @@ def check_negation(ctx, case, cat_a, rec_a, cat_b, rec_b, stats, img_a=None):
         bad = None
         worst = None
         dev_only = False
+        # exclusion band: an island fitted with as many free parameters as pixels has zero residual up to round-off;
+        # whether lmfit then reports error bars (FITERR, and with it every err_*) is decided by round-off alone
+        zero_dof = dof(rec_a, isle) is not None and dof(rec_a, isle) <= 0
+        if zero_dof:
+            ctx.count('zero-dof-island (FITERR bit and err_* not judged)')
+        fmask = ~2 if zero_dof else ~0
+        fields = [f for f in JUDGED_SAME + JUDGED_NEG if not (zero_dof and f.startswith('err_'))]
+        isl_dev = {}
         if len(la) != len(lb):
             bad = f"{len(la)} components in the image, {len(lb)} in its negative"
         else:
             for ca, cb in zip(la, lb):
-                if ca['flags'] != cb['flags']:
+                if ca['flags'] & fmask != cb['flags'] & fmask:
                     bad = f"component {ca['source']}: flags {ca['flags']} vs {cb['flags']}"
                     break
-                for f in JUDGED_SAME + JUDGED_NEG:
+                for f in fields:
                     dv = field_dev(f, ca, cb, f in JUDGED_NEG)
-                    if not mixed:
-                        stats['worst'] = max(stats['worst'], dv if dv != float('inf') else 1e9)
-                        if dv > stats['worst_by_field'].get(f, 0.0):
-                            stats['worst_by_field'][f] = dv
+                    isl_dev[f] = max(isl_dev.get(f, 0.0), dv)
                     if dv > TOL and (worst is None or dv > worst[1]):
                         worst = (f, dv, ca[f], cb[f])
                 if worst and not bad:
@@ -369,6 +374,12 @@ def check_negation(ctx, case, cat_a, rec_a, cat_b, rec_b, stats, img_a=None):
                     dict(noise_seed=case.get('noise_seed'), mode=case.get('mode'), island=isle, field=worst[0],
                          negation_deviation=float('%.3g' % worst[1]), control_deviation=float('%.3g' % ctrl)))
                 bad = None
+                isl_dev = {}
+        if not bad and not mixed:
+            # worst deviation over the islands that were judged and accepted at TOL
+            for f, dv in isl_dev.items():
+                stats['worst'] = max(stats['worst'], dv)
+                stats['worst_by_field'][f] = max(stats['worst_by_field'].get(f, 0.0), dv)
         if bad:
             ok = False
             pa = [round(c['peak_flux'], 4) for c in la]
@@ -383,6 +394,15 @@ def check_negation(ctx, case, cat_a, rec_a, cat_b, rec_b, stats, img_a=None):
         else:
             ctx.count('symmetric-island-mixed' if mixed else 'symmetric-island')
     return ok
+
+
+def dof(rec, isle):
+    """pixels minus free parameters of the island's fit (None if unknown)"""
+    e = [e for e in rec.est if e['isle'] == isle]
+    if len(e) != 1 or e[0]['params'] is None:
+        return None
+    free = sum((3 if c['vary'] else 0) + (3 if c['psf_vary'] else 0) for c in e[0]['params'])
+    return int(np.isfinite(e[0]['data']).sum()) - free
 
 
 def est_mirrored(rec_a, rec_b, isle):
